@@ -727,7 +727,9 @@ def check_C19(tier, seed):
                 if rng.random() < 0.4:
                     o["f"]["o"] = {"t": "none", "v": 0}
             doms = datasets.domains_for(rng, W, nv, shared=rng.random() < 0.3, maxdom=4)
-            q = mk_query(p, doms)
+            # (some cases: `f = x.n` written once and used wherever x.n occurs - one expression object in condition and
+            # value positions alike)
+            q = mk_query(p, doms, **({"shareexprs": True} if rng.random() < 0.3 else {}))
             qs, evs = [q], [drain_ev(1)]
             try:
                 q2 = shift.shift_program(q)
@@ -743,7 +745,13 @@ def check_C19(tier, seed):
     # an attribute expression selected on its own: each satisfying object contributes its value, whatever it is (None too)
     sel_progs = run.export("GenQuery", "G1s", "PROG", constants=dict(G="G1s", NV=1, LeafLimit=12 if quick else 30, MaxLeaves=1,
                                                                       MaxNot=1, NeedNot=False), count=False)
-    for p in rng.sample(sel_progs, min(len(sel_progs), 300 if quick else 6000)):
+    # ... and under two-leaf conditions, where the selected expression may also be one of the conditions (the same object
+    # in a skippable condition position and in value position)
+    sel2 = run.export("GenQuery", "G1s-2", "PROG", constants=dict(G="G1s", NV=1, LeafLimit=8 if quick else 16, MaxLeaves=2,
+                                                                   MaxNot=1, NeedNot=False), count=False)
+    sel2 = [p for p in sel2 if count_nodes(p["cond"], "truth") > 0]
+    sel_progs = rng.sample(sel_progs, min(len(sel_progs), 300 if quick else 6000)) + rng.sample(sel2, min(len(sel2), 700 if quick else 12000))
+    for p in sel_progs:
         n = rng.randint(2, 6)
         W = {"objs": [{"cls": "A", "f": datasets.obj_fields(rng, n)} for _ in range(n)]}
         for o in W["objs"]:
@@ -751,7 +759,8 @@ def check_C19(tier, seed):
                 o["f"]["o"] = {"t": "none", "v": 0}
         dom = list(range(1, n + 1))
         rng.shuffle(dom)
-        qc.add(W, [mk_query(p, [dom])], [drain_ev(1), drain_ev(1, eqto=1)], tag="selected-expression")
+        qc.add(W, [mk_query(p, [dom], **({"shareexprs": True} if rng.random() < 0.5 else {}))],
+               [drain_ev(1), drain_ev(1, eqto=1)], tag="selected-expression")
 
     def falsy_world(n):
         W = {"objs": [{"cls": "A", "f": datasets.obj_fields(rng, n)} for _ in range(n)]}
